@@ -155,23 +155,29 @@ def r01_3(ctx):
             y_of[vn] = "serialize(" + var["fields"][0]["ty"] + ")" if ok else None
             ctx.ob(f"out:{vn}:delegates-to-payload", ok, site(ser_body, tgt[idx]), f"serialises the {vn} payload through its own Serialize impl" if ok else f"calls {names}")
         elif vn == "Map":
+            # evaluated on the arm with same-crate helpers inlined (the loop may live in a helper)
+            msup = Super(lib, ser_body, depth=2)
+            arm_edge = (((), 0), idx, ((), tgt[idx]))
+            wo = msup.reachable_from([msup.entry], removed_edges=[arm_edge])
+            msers = [(n_, t_) for n_, _, t_ in msup.calls() if n_ not in wo and (fn_of(t_) or {}).get("trait") in ("serde::Serializer", "serde::Serialize", "serde::ser::SerializeMap", "serde::ser::SerializeSeq")]
+            names = [fn_of(t_)["name"] for _, t_ in msers]
             ok_names = "serialize_map" in names and "end" in names and ("serialize_entry" in names or ("serialize_key" in names and "serialize_value" in names))
             detail = f"calls {names}"
             ok = ok_names
             if ok and "serialize_entry" in names:
-                bb, t = [x for x in sers if fn_of(x[1])["name"] == "serialize_entry"][0]
-                k = trace(ser_body, t["args"][1])
-                v = trace(ser_body, t["args"][2])
-                kf = [s[1] for s in k.steps if s[0] == "field"]
-                vf = [s[1] for s in v.steps if s[0] == "field"]
-                ok = kf[:1] == ["0"] and vf[:1] == ["1"] and ser_body.on_cycle(bb)
+                n_, t_ = [x for x in msers if fn_of(x[1])["name"] == "serialize_entry"][0]
+                k = strace(msup, n_, t_["args"][1])
+                v = strace(msup, n_, t_["args"][2])
+                kf = [s_[1] for s_ in k.steps if s_[0] == "field"]
+                vf = [s_[1] for s_ in v.steps if s_[0] == "field"]
+                ok = kf[:1] == ["0"] and vf[:1] == ["1"] and msup.on_cycle(n_)
                 detail = f"serialize_entry(key = .{kf[:1]}, value = .{vf[:1]}) in the loop over the pair vector"
-                endc = [x for x in sers if fn_of(x[1])["name"] == "end"]
-                ok = ok and len(endc) == 1 and not ser_body.on_cycle(endc[0][0])
+                endc = [x for x in msers if fn_of(x[1])["name"] == "end"]
+                ok = ok and len(endc) == 1 and not msup.on_cycle(endc[0][0])
             elif ok:
-                kb = [x for x in sers if fn_of(x[1])["name"] == "serialize_key"][0][0]
-                vb = [x for x in sers if fn_of(x[1])["name"] == "serialize_value"][0][0]
-                ok = ser_body.dominates(kb, vb)
+                kb = [x for x in msers if fn_of(x[1])["name"] == "serialize_key"][0][0]
+                vb = [x for x in msers if fn_of(x[1])["name"] == "serialize_value"][0][0]
+                ok = msup.dominates(kb, vb)
             ctx.ob("out:Map:entries-in-order", ok, site(ser_body, tgt[idx]), detail)
         else:
             ok = len(names) == 1 and names[0].startswith("serialize_")
@@ -320,5 +326,5 @@ def r06_1(ctx):
            "serde_json parses floats with best-effort precision: xt's own JSON output may not re-parse to the same value")
     # both JSON arms construct serde_json deserializers (so the feature is the one that matters)
     ep = common.input_entry_points(ctx.facts)["json"]
-    ctors = [fn_of(t)["def"] for _, t in ep.calls() if (fn_of(t) or {}).get("crate") == "serde_json" and "Deserializer" in fn_of(t)["def"] and fn_of(t)["name"].startswith("from_")]
+    ctors = [fn_of(t)["def"] for _, _, t in Super(lib, ep, depth=2).calls() if (fn_of(t) or {}).get("crate") == "serde_json" and "Deserializer" in fn_of(t)["def"] and fn_of(t)["name"].startswith("from_")]
     ctx.ob("json-reader-is-serde_json", len(ctors) >= 2, site(ep), f"JSON input is parsed by {ctors}")
